@@ -1790,8 +1790,22 @@ parse_27(vbi_decoder *vbi, uint8_t *p,
 
 	vbi = vbi;
 
-	if (cvtp->function == PAGE_FUNCTION_DISCARD)
+	switch (cvtp->function) {
+	case PAGE_FUNCTION_UNKNOWN:
+	case PAGE_FUNCTION_LOP:
+	case PAGE_FUNCTION_EACEM_TRIGGER:
+	case PAGE_FUNCTION_GDRCS:
+	case PAGE_FUNCTION_DRCS:
+		/* data.unknown.link[], data.lop.link[] and
+		   data.drcs.lop.link[] coincide. */
+		break;
+
+	default:
+		/* Pages with another function have no link[] array,
+		   storing links would overwrite the decoded page (POP
+		   triplets, AIT titles) with arbitrary data. */
 		return TRUE;
+	}
 
 	if ((designation = vbi_unham8 (*p)) < 0)
 		return FALSE;
